@@ -261,6 +261,21 @@ def stress(run, tsc):
                         conf = dict(n1d=n1d, nthread=nthread, coord=coord, npartition=None, npartition_used=None)
                         run.violation('compiled-parallel-differs-from-serial', dict(n1d=n1d, nthread=nthread, coord=coord, rep=r, cells_differing=nd, mass_parallel=float(out.sum()), mass_serial=float(ref.sum())))
                         break
+    # unweighted deposits with sorting inside the stripes (its own code path in the partition), repeated
+    for r in range(12 if run.quick else 100):
+        n1d, nthread = [(32, 8), (64, 16), (48, 6), (32, 4)][r % 4]
+        box = float(n1d)
+        pos = lattice_particles(rng, n1d, 8, r % 3, box, 300000)
+        with warnings.catch_warnings():
+            warnings.simplefilter('ignore')
+            ref = tsc.tsc_parallel(pos.copy(), np.zeros((n1d, n1d, n1d), dtype=np.float64), box, weights=None, nthread=1, wrap=False, coord=r % 3)
+            out = tsc.tsc_parallel(pos.copy(), np.zeros((n1d, n1d, n1d), dtype=np.float64), box, weights=None, nthread=nthread, wrap=False, coord=r % 3, sort=True)
+        run.ev()
+        run.count('stress_runs')
+        run.nt(('stress-unweighted-sorted', n1d, nthread, r % 3))
+        if not np.array_equal(out, ref):
+            run.violation('compiled-parallel-differs-from-serial', dict(n1d=n1d, nthread=nthread, weights=None, sort=True, rep=r, cells_differing=int((out != ref).sum()), mass_parallel=float(out.sum()), mass_serial=float(ref.sum())))
+            break
     # thread counts that do not divide the particle count, with counts for which N/nthread is not exact in floating point
     for nthread, Np in ((11, 100000), (7, 250003), (13, 250001), (14, 100003), (15, 100001), (3, 100001), (6, 99999)):
         n1d = 32
